@@ -175,4 +175,47 @@ DyFixed(d, F) == S(d.s < 0, DyMag(d, F))
 DyIsZero(d) == d.s = 0 \/ Len(Norm(d.m)) = 0
 IsFinite(d) == "nf" \notin DOMAIN d
 
+(***************************************************************************)
+(* Dyadic arithmetic proper: records [s, m, e] with m a normalised Wide.   *)
+(* DyOf converts the harness encoding (m = four digits).                   *)
+(***************************************************************************)
+Dy(s, m, e) == [s |-> IF Len(m) = 0 THEN 0 ELSE s, m |-> m, e |-> IF Len(m) = 0 THEN 0 ELSE e]
+DyOf(d) == Dy(d.s, Norm(d.m), d.e)
+DyZero == Dy(0, << >>, 0)
+DyFromInt(n) == IF n = 0 THEN DyZero ELSE IF n < 0 THEN Dy(-1, FromInt(-n), 0) ELSE Dy(1, FromInt(n), 0)
+DyFromWide(w) == Dy(1, w, 0)
+DyNeg(a) == Dy(-a.s, a.m, a.e)
+DyAbs(a) == Dy(IF a.s = 0 THEN 0 ELSE 1, a.m, a.e)
+DyScale2(a, k) == Dy(a.s, a.m, a.e + k)                 \* a * 2^k
+DyMulInt(a, k) ==                                        \* |k| < 2^16
+    IF k = 0 \/ a.s = 0 THEN DyZero
+    ELSE Dy(IF k < 0 THEN -a.s ELSE a.s, MulSmall(a.m, IF k < 0 THEN -k ELSE k), a.e)
+DyMulWide(a, w) == IF a.s = 0 \/ Len(w) = 0 THEN DyZero ELSE Dy(a.s, Mul(a.m, w), a.e)
+DyMul(a, b) == IF a.s = 0 \/ b.s = 0 THEN DyZero ELSE Dy(a.s * b.s, Mul(a.m, b.m), a.e + b.e)
+\* signed mantissas at the common exponent min(a.e, b.e)
+DyCommonE(a, b) == IF a.s = 0 THEN b.e ELSE IF b.s = 0 THEN a.e ELSE IF a.e < b.e THEN a.e ELSE b.e
+DyAt(a, e) == S(a.s < 0, IF a.s = 0 THEN << >> ELSE Shl(a.m, a.e - e))
+DyAdd(a, b) == LET e == DyCommonE(a, b)
+                   r == SAdd(DyAt(a, e), DyAt(b, e))
+               IN  Dy(IF r.neg THEN -1 ELSE 1, r.mag, e)
+DySub(a, b) == DyAdd(a, DyNeg(b))
+DyCmp(a, b) == LET e == DyCommonE(a, b) IN SCmp(DyAt(a, e), DyAt(b, e))
+DyLe(a, b) == DyCmp(a, b) <= 0
+DyLt(a, b) == DyCmp(a, b) < 0
+DyEq(a, b) == DyCmp(a, b) = 0
+\* |x| <= 2^-k * y   (y >= 0)
+DyWithin(x, k, y) == DyLe(DyScale2(DyAbs(x), k), y)
+
+\* IEEE-754 binary64 rounding (round to nearest, ties to even) of a dyadic value in the normal range
+DyRound53(a) ==
+    LET n == BitLen(a.m)
+    IN  IF n <= 53 THEN a
+        ELSE LET k == n - 53
+                 q == Shr(a.m, k)
+                 half == Bit(a.m, k - 1) = 1
+                 rest == ~LowBitsZero(a.m, k - 1)
+                 up == half /\ (rest \/ Bit(q, 0) = 1)
+             IN  Dy(a.s, IF up THEN Add(q, FromInt(1)) ELSE q, a.e + k)
+DyAddF64(a, b) == DyRound53(DyAdd(a, b))
+
 =============================================================================
